@@ -44,7 +44,7 @@ for p in props:
                 "design_ref": f"DESIGN.md section 4 ({pid})",
             },
             "level_note": "Trusted base: assumed contracts of NumPy/SciPy/numpy_groupies primitives (validated against the real libraries on a small scope), lemmas listed in the evidence, integers mathematical, floats as reals in proofs. The evidence file lists every assumption used by the run.",
-            "technique": pl.get("technique", "contract-based deductive verification (VCs from the real AST, z3/cvc5)" + (" + bounded stand-in" if pl.get("standin") else "")),
+            "technique": pl.get("technique", ("contract-based deductive verification (VCs from the real AST, z3/cvc5)" + (" + bounded stand-in" if pl.get("standin") else "")) if (pl.get("functions") or pl.get("extra")) else "bounded stand-in only: run-time contracts on the real functions over an enumerated small scope (nothing proved yet)"),
         })
     else:
         m["not_applicable"].append({"property_id": pid, "reason": NOT_APPLICABLE.get(pid, "check not built yet (work in progress in this session)")})
